@@ -370,13 +370,14 @@ func NewBuilder(trackIdx int, spec *TrackSpec) *Builder {
 
 // VideoOpts are the options of one video access unit.
 type VideoOpts struct {
-	RA         bool
-	ParamIdx   int  // parameter set to embed; -1 = none
-	Size       int  // filler size
-	OBUNoSize  bool // AV1: emit OBUs without size field
-	CRA        bool // H265: use CRA_NUT instead of IDR
-	BFramePos  int  // H264 B-frame stream: position in the GOP (RA must be position 0)
-	PrependAUD bool
+	RA              bool
+	ParamIdx        int  // parameter set to embed; -1 = none
+	Size            int  // filler size
+	OBUNoSize       bool // AV1: emit OBUs without size field
+	CRA             bool // H265: use CRA_NUT instead of IDR
+	BFramePos       int  // H264 B-frame stream: position in the GOP (RA must be position 0)
+	PrependAUD      bool
+	VP9ShowExisting bool // VP9: a show_existing_frame frame (a frame header that only names a buffered frame)
 }
 
 // Video builds one video access unit and registers the expected sample.
@@ -436,9 +437,14 @@ func (b *Builder) Video(writeIdx int, pts int64, ntp time.Time, o VideoOpts) [][
 		if o.ParamIdx >= 0 {
 			p = b.Spec.ParamSets[o.ParamIdx].VP9
 		}
-		if o.RA {
+		switch {
+		case o.RA:
 			data = [][]byte{append(vp9KeyHeader(p), body...)}
-		} else {
+		case o.VP9ShowExisting:
+			// frame_marker, profile, show_existing_frame = 1, frame_to_show_map_idx
+			hb := byte(0x80) | (p.Profile&1)<<5 | (p.Profile>>1)<<4 | 1<<3 | byte(idx%8)
+			data = [][]byte{append([]byte{hb}, body...)}
+		default:
 			data = [][]byte{append(vp9NonKeyHeader(p), body...)}
 		}
 	}
